@@ -727,6 +727,17 @@ impl Model {
                     }
                 }
             }
+            Op::RemoveAnnotationsOn { r } => {
+                let t = self.res_target(r);
+                match t.uid {
+                    None => Outcome::Err,
+                    Some(uid) => {
+                        let seed: BTreeSet<Uid> = self.annotations_on_resource_text(uid).into_iter().collect();
+                        self.remove_closure(seed, fx);
+                        Outcome::Ok { handle: None }
+                    }
+                }
+            }
             Op::RemoveResource { r } => {
                 let t = self.res_target(r);
                 match t.uid {
